@@ -6,6 +6,7 @@ import (
 	"encoding/json"
 	"fmt"
 	"github.com/mimecast/dtail/internal/mapr"
+	maprserver "github.com/mimecast/dtail/internal/mapr/server"
 	"github.com/mimecast/dtail/internal/source"
 	"github.com/mimecast/dtail/verifharness/internal/dt"
 	"github.com/mimecast/dtail/verifharness/internal/vlib"
@@ -101,10 +102,28 @@ func c11Child(args []string) int {
 		var c c11Case
 		json.Unmarshal(raw, &c)
 		res := c11Parse(c.Q)
+		// the same text as a server receives it: once, and again (a
+		// reconnecting client or a scheduled job submits its query anew)
+		res.Srv = []string{c11Submit(c.Q), c11Submit(c.Q)}
 		if c.Pipe != nil && res.Info != nil {
 			p := runPipeline(*c.Pipe)
 			res.Pipe = &p
 		}
 		return res
 	})
+}
+
+// c11Submit hands the query text to the server side entry point of the
+// mapreduce engine and reports whether it was accepted.
+func c11Submit(qs string) (verdict string) {
+	defer func() {
+		if p := recover(); p != nil {
+			verdict = "panic: " + fmt.Sprint(p)
+		}
+	}()
+	agg, err := maprserver.NewAggregate(qs)
+	if err != nil || agg == nil {
+		return "rejected"
+	}
+	return "accepted"
 }
